@@ -128,9 +128,13 @@ def rule_alpha(E, R):
         lits_, ors_ = sem.literals(x.pc)
         bad_pred = []
         for a_, pol in lits_:
-            if a_.kind == "is" and pol and a_.pats and len(a_.scruts) == 1 and norm(a_.scruts[0].node.get("ty", "")).lstrip("&") == "char":
+            sty_ = norm(a_.scruts[0].node.get("ty", "")).lstrip("&") if a_.kind == "is" and a_.scruts else ""
+            if a_.kind == "is" and pol and a_.pats and len(a_.scruts) == 1 and sty_ in ("char", "core::option::Option<char>"):
                 sb = Sp.resolve(a_.scruts[0].node, a_.scruts[0].frame)
-                if (sb.bind or Sp.lookup(sb.node, sb.frame)) is pb or Sp.same(a_.scruts[0].node, a_.scruts[0].frame, c_["args"][0], x.frame):
+                payload = pb is not None and pb.kind in ("pat", "loopvar") and pb.expr is not None and \
+                    sem.peel(pb.expr) is sem.peel(a_.scruts[0].node)
+                if (sb.bind or Sp.lookup(sb.node, sb.frame)) is pb or payload or \
+                        Sp.same(a_.scruts[0].node, a_.scruts[0].frame, c_["args"][0], x.frame):
                     cs_all = set()
                     okp = True
                     for p_ in a_.pats:
@@ -198,14 +202,19 @@ def rule_alpha(E, R):
     S = sem.Sem(E, h)
     sites = S.sites()
 
+    def is_empty_test(a_):
+        n_ = sem.peel(a_.node) if a_.kind == "call" and a_.node is not None else {}
+        if n_.get("k") == "MethodCall" and n_["m"] == "is_empty":
+            b_ = sem.root_local(S, n_["recv"], a_.frame)
+            return b_ is not None and b_.name == acc
+        return False
+
     def empty_pol(x):
         for a_, pol in sem.literals(x.pc)[0]:
-            n_ = sem.peel(a_.node) if a_.kind == "call" and a_.node is not None else {}
-            if n_.get("k") == "MethodCall" and n_["m"] == "is_empty":
-                b_ = sem.root_local(S, n_["recv"], a_.frame)
-                if b_ is not None and b_.name == acc:
-                    return pol
-        return None
+            if is_empty_test(a_):
+                return pol
+        # not stated outright: forced by the conditions taken together (guarded arms that were not taken, ..)
+        return sem.implied(x.pc, is_empty_test)
     leaves = S.result_leaves()
     errs = [x for x in leaves if sem.ctor_head(x.node) == "Result::Err"]
     oks = [x for x in leaves if sem.ctor_head(x.node) == "Result::Ok"]
